@@ -3,7 +3,7 @@
 (* the properties C01..C04, C08, C17, C18 stated once over its state, and   *)
 (* a history variable so that TLC can print behaviours for replay into the  *)
 (* real code (Gen_*.cfg).  MC_*.cfg hide the history with a VIEW.           *)
-EXTENDS RouterOps, Json
+EXTENDS RouterOps, Json, Integers
 
 CONSTANTS Cfgs,          \* set of configurations [name, trace, lock, icpt, domain]
           Bases,         \* set of sequences of handle ops applied before the history starts
@@ -41,9 +41,12 @@ MkF(fid, ch, isres) == [op |-> "facade", fid |-> fid, chain |-> ch, res |-> isre
 HFo(fid, ch, isres, p, ms, mw) == HF(ch, isres, p, ms, mw) @@ [fid |-> fid]
 NoUrls == <<>>
 NoMOps == {}
-TH(method, path, hdr, body, flag) == [op |-> "tracehelper", method |-> method, path |-> path, hdr |-> hdr, body |-> body, flag |-> flag]
+TH(method, path, hdr, body, flag) == [op |-> "tracehelper", method |-> method, path |-> path, hdr |-> hdr, body |-> body, flag |-> flag, n |-> 0]
+\* n = -1: the body's length is unknown to the server (chunked / streamed request)
+THU(method, path, hdr, body, flag) == [op |-> "tracehelper", method |-> method, path |-> path, hdr |-> hdr, body |-> body, flag |-> flag, n |-> -1]
 StdTH == {TH(m, p, h, b, f) : m \in {"TRACE", "GET"}, p \in {"/", "/a<b>&'\"c"}, h \in {<<>>, [Cookie |-> "a<b"], [Accept |-> "x&y'z\"", Cookie |-> "k"]},
                               b \in {"", "<p>&amp;'\"</p>"}, f \in BOOLEAN}
+         \cup {THU("TRACE", "/", <<>>, b, f) : b \in {"x<y", "<p>&amp;'\"</p>"}, f \in BOOLEAN}
 \* probes: W = simple-valued witness of a pattern, A = any other path
 W(p, wps) == [path |-> Subst(Parse(p).atoms, wps), wit |-> p, wps |-> wps]
 A(path)   == [path |-> path, wit |-> "", wps |-> <<>>]
